@@ -278,6 +278,70 @@ func c12(x *Ctx) {
 	}
 	c.Min(r3, 5)
 
+	// ---- the key names the sampler type: distinct definitions of different types never share a key ------------
+	const r6 = "C12.type-in-key"
+	{
+		tags := map[string][]ssa.Instruction{}
+		var order []string
+		for _, f := range x.PkgFuncs("sample") {
+			for _, k := range callsIn(f, nKey) {
+				a := eng.CallArgs(k)
+				if len(a) < 2 {
+					continue
+				}
+				c.Examined++
+				tag, isConst := eng.ConstString(a[1])
+				if !isConst {
+					// passed through a helper: the helper's argument must be a distinct constant at each of its call sites
+					if p, isP := a[1].(*ssa.Parameter); isP {
+						for _, v := range x.callerArgs(f, p) {
+							if t, ok := eng.ConstString(v); ok {
+								if len(tags[t]) == 0 {
+									order = append(order, t)
+								}
+								tags[t] = append(tags[t], k)
+							} else {
+								c.Undecided(r6, BaseName(f)+"/type-tag", x.Pos(k), "the sampler-type component of the registry key is not a constant")
+							}
+						}
+						continue
+					}
+					c.Undecided(r6, BaseName(f)+"/type-tag", x.Pos(k), "the sampler-type component of the registry key is not a constant")
+					continue
+				}
+				if len(tags[tag]) == 0 {
+					order = append(order, tag)
+				}
+				// a constant tag inside a helper stands for every place the helper is called from
+				n := 1
+				if BaseName(f) != "createSampler" {
+					if m := len(x.Callers(f)); m > 1 {
+						n = m
+					}
+				}
+				for i := 0; i < n; i++ {
+					tags[tag] = append(tags[tag], k)
+				}
+			}
+		}
+		// which dynsampler constructor is paired with each tag: one tag ⇒ one constructor
+		for _, tag := range order {
+			ks := tags[tag]
+			c.Decide(len(ks) == 1, r6, "tag:"+tag, x.Pos(ks[0]), "used for one sampler type only",
+				sprintf("the type tag %q is used for %d different sampler types: two definitions of different types with the same rate and fields under one destination get the same registry key, and the second receives (or replaces) the first's dynsampler", tag, len(ks)))
+		}
+		if mk := x.P.Func("sample", "", "makeDynsamplerKey"); mk != nil && len(mk.Params) >= 2 {
+			used := false
+			eng.Instrs(mk, func(in ssa.Instruction) {
+				if r, ok := in.(*ssa.Return); ok {
+					_, used = eng.Derives(r.Results[0], func(v ssa.Value) bool { return v == ssa.Value(mk.Params[1]) }, eng.FlowOpts{ThroughCalls: true})
+				}
+			})
+			c.Decide(used, r6, "makeDynsamplerKey/type-used", x.PosOf(mk.Pos()), "the type tag is part of the key", "makeDynsamplerKey ignores its sampler-type argument")
+		}
+	}
+	c.Min(r6, 5)
+
 	// ---- look-up, create and store are one critical section -----------------------------------------
 	const r4 = "C12.lookup-create-atomic"
 	regF := eng.FieldIs("sample", "SamplerFactory", "sharedDynsamplers")
